@@ -185,6 +185,29 @@ fn resolve_promise(
     fulfill_promise(interp, promise, value)
 }
 
+/// Root the handlers taken out of a settling promise (callbacks and derived
+/// promises) and the settlement value: once removed from the promise state they
+/// are referenced only from the Rust list while earlier handlers run and allocate.
+fn guard_taken_handlers(
+    interp: &mut Interpreter,
+    handlers: &[PromiseHandler],
+    value: &JsValue,
+) -> Guard<JsObject> {
+    let guard = interp.heap.create_guard();
+    for handler in handlers {
+        for callback in [&handler.on_fulfilled, &handler.on_rejected] {
+            if let Some(JsValue::Object(obj)) = callback {
+                guard.guard(obj.cheap_clone());
+            }
+        }
+        guard.guard(handler.result_promise.cheap_clone());
+    }
+    if let JsValue::Object(obj) = value {
+        guard.guard(obj.cheap_clone());
+    }
+    guard
+}
+
 /// Fulfill a promise with a value
 fn fulfill_promise(
     interp: &mut Interpreter,
@@ -208,6 +231,7 @@ fn fulfill_promise(
     };
 
     // Trigger handlers synchronously
+    let _handlers_guard = guard_taken_handlers(interp, &handlers, &value);
     for handler in handlers {
         trigger_handler(interp, handler, &value, true)?;
     }
@@ -244,6 +268,7 @@ fn reject_promise(
     }
 
     // Trigger handlers synchronously
+    let _handlers_guard = guard_taken_handlers(interp, &handlers, &reason);
     for handler in handlers {
         trigger_handler(interp, handler, &reason, false)?;
     }
